@@ -1141,6 +1141,7 @@ func c6StdBridge(c *Ctx, rule string, lv map[string]int64) {
 	type snap struct {
 		ints map[string]int64
 		vals map[string]ssa.Value
+		self ssa.Value // the writer itself, when it is not a struct (a function type with a Write method)
 	}
 	inlLogger := func(h *ssa.Function) bool {
 		r := h
@@ -1156,6 +1157,9 @@ func c6StdBridge(c *Ctx, rule string, lv map[string]int64) {
 		seqs, trunc := ConcPaths(lw, ConcCfg{
 			InlineAny: inlLogger, MaxDepth: 8,
 			Init: func(st *ConcState) {
+				if _, isStruct := types.Unalias(deref(recv.Type())).Underlying().(*types.Struct); !isStruct && sn.self != nil {
+					st.SetAlias(recv, sn.self)
+				}
 				for f, k := range sn.ints {
 					st.SetField(recv, f, k)
 				}
@@ -1232,6 +1236,10 @@ func c6StdBridge(c *Ctx, rule string, lv map[string]int64) {
 			installed := 0
 			seqs, trunc := ConcPaths(fn, ConcCfg{
 				MaxDepth: 6,
+				// one bridge built on another (NewStdLog as NewStdLogAt at InfoLevel)
+				InlineAny: func(h *ssa.Function) bool {
+					return h.Pkg != nil && h.Pkg.Pkg.Path() == zp && h.Signature.Recv() == nil && (h.Name() == "NewStdLog" || h.Name() == "NewStdLogAt" || h.Name() == "redirectStdLogAt")
+				},
 				Init: func(st *ConcState) {
 					if ct.levelIdx >= 0 {
 						st.SetInt(fn.Params[ct.levelIdx], lc.k)
@@ -1260,7 +1268,31 @@ func c6StdBridge(c *Ctx, rule string, lv map[string]int64) {
 							if !isLW(v.Type()) {
 								continue
 							}
-							sn := snap{ints: map[string]int64{}, vals: st.FieldValsOf(v)}
+							self := v
+							for k := 0; k < 8; k++ {
+								if ct, isCT := self.(*ssa.ChangeType); isCT {
+									self = ct.X
+									continue
+								}
+								if nx := st.Step(self); nx != nil {
+									self = nx
+									continue
+								}
+								break
+							}
+							sn := snap{ints: map[string]int64{}, vals: st.FieldValsOf(v), self: self}
+							for f, fv := range sn.vals {
+								// what the stored register stands for on this path (the second stage does not know
+								// this path's bindings)
+								for k := 0; k < 16; k++ {
+									nx := st.Step(fv)
+									if nx == nil {
+										break
+									}
+									fv = nx
+								}
+								sn.vals[f] = fv
+							}
 							for f, d := range st.FieldsOf(v) {
 								if _, isVal := sn.vals[f]; !isVal {
 									if k, ok := parseInt(d); ok {
